@@ -60,6 +60,7 @@ func CrashSig(crash string) string {
 type Opts struct {
 	Leaks bool // parked non-daemon, non-harness threads at the end are findings
 	Races bool
+	MapRaces bool // only unordered conflicting accesses of one map: the Go runtime aborts the process on them
 	NoDeadlock bool
 }
 
@@ -101,6 +102,14 @@ func Generic(x *vrt.Exec, o Opts) []*engine.Finding {
 			sort.Strings(parts)
 			out = append(out, &engine.Finding{Sig: "leak{" + strings.Join(uniq(parts), " | ") + "}",
 				Msg: fmt.Sprintf("%d thread(s) of the system still parked after everything ended: %s", len(l), strings.Join(x.Blocked, "; "))})
+		}
+	}
+	if o.MapRaces && !o.Races {
+		for _, r := range x.Races {
+			if strings.Count(r.Sig, "map:") == 2 {
+				out = append(out, &engine.Finding{Sig: "concurrent-map-access{" + strings.TrimSuffix(strings.TrimPrefix(r.Sig, "race{"), "}") + "}",
+					Msg: "unsynchronised concurrent access to a map (the Go runtime aborts the process: fatal error: concurrent map read and map write): " + r.A + " <-> " + r.B})
+			}
 		}
 	}
 	if o.Races {
